@@ -218,6 +218,23 @@ CHECKS["C02"] = dict(
          "(C05.validate_idem), schemas with the recorded non-idempotent item fields (F22/F25) are counted as unmodelled.",
     technique="Lean 4 proof (induction on nesting depth; refinement of load_tree after to_tree to the identity up to named normalisations) + model/implementation correspondence",
     design="6 C02")
+CHECKS["C03"] = dict(
+    text="Lean 4 theorems about toTreeK, the serialisation with the encryption world chosen per configuration by the bubbling rule of "
+         "Config._keyfile: a secure leaf holding a non-empty secret is written as exactly what encrypt returns under the holder's key file "
+         "(never the held string); that result is a {concrete method, base64 ciphertext} map and decrypts to the secret under the same key "
+         "for every key, IV and method (C08); the key file in use at the end of any ancestor chain is the last one named on it, the default "
+         "only if none is (keyAlong); the written tree depends on the per-key-file worlds only at the key files of the configurations of the "
+         "tree (parametricity), each of which is the default or named in the tree, and never the default when the root names one; with one "
+         "key file per tree toTreeK is the plain to_tree in that key's world, so reload under the same key file is the C02 round trip. "
+         "Correspondence: histories of key-file assignments / secret assignments / replacements / loads / keyed serialisations on the real "
+         "library (key file identified per ciphertext by trial decryption, open() log, directory listing) vs the model; direct oracle of the "
+         "nearest-named-ancestor rule, absence of plaintext in five document formats, reload in-process and in a new interpreter session.",
+    note=CFG_NOTE + " Reload is proved for trees served by one key file (reload_same_key_partial); a key file assigned to a plain sub-configuration "
+         "does not survive replacement of that object (finding F19, witness theorem f19_sub_key_lost). 'Plaintext absent from the output bytes' "
+         "is explored per sample: a ciphertext could contain the plaintext by coincidence, no theorem excludes that. KeyFile file access is "
+         "C07's model; here it is observed through open().",
+    technique="Lean 4 proof (mutual induction over nesting; parametricity in the per-key-file worlds) + model/implementation correspondence",
+    design="6 C03")
 PENDING = ["C01", "C02", "C03", "C04", "C05", "C06", "C07", "C08", "C09", "C10", "C11", "C12", "C13", "C14", "C15", "C16",
            "C17", "C19", "C20"]
 
